@@ -764,9 +764,47 @@ func expandLayouts(lines []string) []string {
 	return out
 }
 
+var layoutRegistry = map[string][][2]string{}
+
+// flatSizes lists the encoded size of every leaf field, in wire order, with
+// the given access prefix ("old(*self)" or a nested field of it).
+func flatSizes(t, prefix string) []string {
+	var out []string
+	for _, f := range layoutRegistry[t] {
+		name, kind := f[0], f[1]
+		sub := ""
+		if i := strings.IndexByte(kind, ':'); i >= 0 {
+			kind, sub = kind[:i], kind[i+1:]
+			if j := strings.IndexByte(sub, ':'); j >= 0 {
+				sub = sub[:j]
+			}
+		}
+		fld := prefix + "." + name
+		if name == "-" {
+			fld = prefix
+		}
+		switch kind {
+		case "u8":
+			out = append(out, "1")
+		case "u16":
+			out = append(out, "2")
+		case "u32", "fid32", "perm32", "mask32":
+			out = append(out, "4")
+		case "u64", "mask64":
+			out = append(out, "8")
+		case "str":
+			out = append(out, "2", "len("+fld+")")
+		case "sub":
+			out = append(out, flatSizes(sub, fld)...)
+		}
+	}
+	return out
+}
+
 func layoutLines(t string, fs [][2]string) []string {
+	layoutRegistry[t] = fs
 	enc, dec := "s", "r"
-	var wf, same, fits, lits []string
+	var wf, same, fits, lits, sizes []string
 	mods := map[string]bool{}
 	cur := "s" // remaining sequence while parsing
 	for _, f := range fs {
@@ -792,18 +830,21 @@ func layoutLines(t string, fs [][2]string) []string {
 			fits = append(fits, fmt.Sprintf("has%s(%s)", w, cur))
 			val = fmt.Sprintf("conv(take%s(%s))", w, cur)
 			cur = fmt.Sprintf("drop%s(%s)", w, cur)
+			sizes = append(sizes, map[string]string{"8": "1", "16": "2", "32": "4", "64": "8"}[w])
 		case "fid32":
 			enc = fmt.Sprintf("snoc32(%s, uint32(%s))", enc, fld)
 			same = append(same, xfld+" == fid(uint32("+fld+"))")
 			fits = append(fits, "has32("+cur+")")
 			val = "fid(take32(" + cur + "))"
 			cur = "drop32(" + cur + ")"
+			sizes = append(sizes, "4")
 		case "perm32":
 			enc = fmt.Sprintf("snoc32(%s, uint32(%s))", enc, fld)
 			same = append(same, xfld+" == "+fld+" & permissionsMask")
 			fits = append(fits, "has32("+cur+")")
 			val = "FileMode(take32(" + cur + ")) & permissionsMask"
 			cur = "drop32(" + cur + ")"
+			sizes = append(sizes, "4")
 		case "str":
 			enc = fmt.Sprintf("snocstr(%s, string(%s))", enc, fld)
 			same = append(same, xfld+" == "+fld)
@@ -811,6 +852,7 @@ func layoutLines(t string, fs [][2]string) []string {
 			fits = append(fits, "hasstr("+cur+")")
 			val = "conv(takestr(" + cur + "))"
 			cur = "dropstr(" + cur + ")"
+			sizes = append(sizes, "2 + len("+fld+")")
 		case "sub":
 			enc = fmt.Sprintf("enc_%s(%s, %s)", sub, enc, fld)
 			same = append(same, fmt.Sprintf("same_%s(%s, %s)", sub, xfld, fld))
@@ -819,6 +861,7 @@ func layoutLines(t string, fs [][2]string) []string {
 			fits = append(fits, fmt.Sprintf("fits_%s(%s)", sub, cur))
 			val = fmt.Sprintf("parse_%s(%s)", sub, cur)
 			cur = fmt.Sprintf("rest_%s(%s)", sub, cur)
+			sizes = append(sizes, fmt.Sprintf("size_%s(%s)", sub, fld))
 		case "mask64", "mask32":
 			w := kind[4:]
 			enc = fmt.Sprintf("snoc%s(%s, %s(%s))", w, enc, sub, fld)
@@ -826,6 +869,7 @@ func layoutLines(t string, fs [][2]string) []string {
 			fits = append(fits, fmt.Sprintf("has%s(%s)", w, cur))
 			val = fmt.Sprintf("%s(take%s(%s))", sub2, w, cur)
 			cur = fmt.Sprintf("drop%s(%s)", w, cur)
+			sizes = append(sizes, map[string]string{"32": "4", "64": "8"}[w])
 		}
 		if name == "-" {
 			lits = append(lits, "-:"+val)
@@ -875,6 +919,9 @@ func layoutLines(t string, fs [][2]string) []string {
 	if len(fits) == 0 {
 		fits = []string{"true"}
 	}
+	if len(sizes) == 0 {
+		sizes = []string{"0"}
+	}
 	parse := t + "{" + strings.Join(lits, ", ") + "}"
 	if len(lits) == 1 && strings.HasPrefix(lits[0], "-:") {
 		parse = lits[0][2:]
@@ -905,11 +952,13 @@ func layoutLines(t string, fs [][2]string) []string {
 		"//@ define fits_" + t + "(s seq) bool = " + strings.Join(fits, " && "),
 		"//@ define parse_" + t + "(s seq) " + t + " = " + parse,
 		"//@ define rest_" + t + "(s seq) seq = " + cur,
+		"//@ define size_" + t + "(m " + t + ") int = " + strings.Join(sizes, " + "),
 		"//@ func (*" + t + ").encode",
 		"//@   requires[C01] @strings-fit-their-16-bit-count wf_" + t + "(*self)",
 		"//@   modifies $wr, b.data, arrays(byte)",
 		"//@   ensures[C01] @wire-layout wr(b) == enc_" + t + "(old(wr(b)), old(*self))",
 		"//@   ensures[C01] @other-buffers-untouched sameWrExcept(b)",
+		"//@   ensures[C01,C13] @encoded-size len(b.data) == " + strings.Join(append([]string{"old(len(b.data))"}, flatSizes(t, "old(*self)")...), " + "),
 		"//@   nopanic",
 		"//@ func (*" + t + ").decode",
 		"//@   modifies " + modl,
